@@ -2,6 +2,7 @@
 use crate::engine::*;
 use crate::keys;
 use crate::proto::*;
+use crate::proto::KeyMaterial;
 use serde::{Deserialize, Serialize};
 use serde_json::json;
 use std::collections::HashSet;
@@ -11,9 +12,14 @@ pub struct NonceHistory {
   pub proto: Proto,
   pub layer: Layer,
   /// 0 identical claims/footer/assertion for every build, a fresh builder per build;
-  /// 1 varying claims; 2 identical claims, ONE builder built N times
+  /// 1 varying claims; 2 identical claims, ONE builder built N times;
+  /// 3 identical LARGE claims (a 70 000-byte claim), fresh builder per build;
+  /// 4 builds of this version interleaved, on one thread, with builds of the other local versions following `pattern`
   pub mode: u8,
   pub n: u32,
+  /// mode 4: the repeating block of versions (0..4 = v1..v4) that is built in turn
+  #[serde(default)]
+  pub pattern: Vec<u8>,
 }
 
 pub struct Freshness;
@@ -33,8 +39,9 @@ impl Sub for Freshness {
     let mut tokens: HashSet<String> = HashSet::with_capacity(n);
     let mut ones = vec![0u32; nl * 8];
     let mut byte_values: Vec<[bool; 256]> = vec![[false; 256]; nl];
+    let big = if c.mode == 3 { "x".repeat(70_000) } else { "same payload every time".to_string() };
     let fixed_claims = [
-      ClaimSpec::Custom("data".into(), json!("same payload every time")),
+      ClaimSpec::Custom("data".into(), json!(big)),
       ClaimSpec::Exp("2999-01-01T00:00:00Z".into()),
       ClaimSpec::Iat("2000-01-01T00:00:00Z".into()),
       ClaimSpec::Nbf("2000-01-01T00:00:00Z".into()),
@@ -49,7 +56,21 @@ impl Sub for Freshness {
       b.assertion("ctx");
     }
     let mut first_dup: Option<String> = None;
+    // mode 4: the other local versions draw randomness on this thread in between
+    let others: Vec<(Proto, KeyMaterial)> = Proto::LOCAL.iter().map(|q| (*q, keys::material(*q, &[43u8; 32]))).collect();
+    let mut windows: HashSet<[u8; 8]> = HashSet::new();
+    let raw_nonce = matches!(p, Proto::V3L | Proto::V4L); // v1/v2 put a MAC of (random, message) on the wire
     for i in 0..n {
+      if c.mode == 4 && !c.pattern.is_empty() {
+        let q = Proto::LOCAL[(c.pattern[i % c.pattern.len()] % 4) as usize];
+        if q != p {
+          let (_, okm) = &others[(c.pattern[i % c.pattern.len()] % 4) as usize];
+          let olk = okm.lib().expect("valid key");
+          let mut ob = new_builder(q, c.layer);
+          let _ = ob.set(&fixed_claims[0]);
+          let _ = ob.build(&olk);
+        }
+      }
       let token = if let Some(b) = shared.as_mut() {
         b.build(&lk)
       } else {
@@ -83,6 +104,16 @@ impl Sub for Freshness {
           }
         }
       }
+      if raw_nonce {
+        // no 8 random bytes may ever be handed out twice, at any offset (chance collision < 2^-20 over a whole run)
+        for w in nonce.windows(8) {
+          let mut a = [0u8; 8];
+          a.copy_from_slice(w);
+          if !windows.insert(a) && first_dup.is_none() {
+            first_dup = Some(format!("bytes {} of the nonce of build #{} ({}) already occurred in an earlier nonce", hex::encode(a), i + 1, hex::encode(&nonce)));
+          }
+        }
+      }
       if !nonces.insert(nonce.clone()) && first_dup.is_none() {
         first_dup = Some(format!("nonce {} of build #{} was already used", hex::encode(&nonce), i + 1));
       }
@@ -90,7 +121,7 @@ impl Sub for Freshness {
         first_dup = Some(format!("token of build #{} equals an earlier token", i + 1));
       }
     }
-    let mode = ["identical-claims", "varying-claims", "one-builder-built-repeatedly"][(c.mode % 3) as usize];
+    let mode = ["identical-claims", "varying-claims", "one-builder-built-repeatedly", "identical-large-claims", "interleaved-with-other-versions"][(c.mode % 5) as usize];
     cl.tag(format!("{}:{}:{}", p.label(), c.layer.label(), mode));
     cl.nontrivial(n >= 1000);
     if let Some(d) = first_dup {
@@ -140,9 +171,19 @@ pub fn run(ctx: &Ctx) -> EvidenceMeta {
   for proto in Proto::LOCAL {
     for layer in [Layer::Generic, Layer::Prelude] {
       for mode in 0..3u8 {
-        jobs.push(Box::new(move || ctx.enumerate(fr, std::iter::once(NonceHistory { proto, layer, mode, n }), false)));
+        jobs.push(Box::new(move || ctx.enumerate(fr, std::iter::once(NonceHistory { proto, layer, mode, n, pattern: vec![] }), false)));
       }
+      let n_big = ctx.n(300, 3000);
+      jobs.push(Box::new(move || ctx.enumerate(fr, std::iter::once(NonceHistory { proto, layer, mode: 3, n: n_big, pattern: vec![] }), false)));
     }
+    // interleaved histories: generated repeating blocks of versions (proptest), a few per version
+    let n_mixed = ctx.n(6000, 40_000);
+    let cases = ctx.n(6, 40);
+    jobs.push(Box::new(move || {
+      use proptest::prelude::*;
+      let strat = (proptest::collection::vec(0u8..4, 1..24), any::<bool>()).prop_map(move |(pattern, prelude)| NonceHistory { proto, layer: if prelude { Layer::Prelude } else { Layer::Generic }, mode: 4, n: n_mixed, pattern });
+      ctx.prop(fr, strat, cases)
+    }));
   }
   run_jobs(jobs);
   let builds = BUILDS.load(std::sync::atomic::Ordering::Relaxed);
@@ -155,7 +196,8 @@ pub fn run(ctx: &Ctx) -> EvidenceMeta {
   rep.extra.insert("history_summaries".into(), serde_json::Value::Array(samples));
   ctx.push_report(rep);
   EvidenceMeta {
-    rule: format!("24 histories = 4 local versions x {{GenericBuilder, PasetoBuilder}} x {{identical claims with a fresh builder per build, varying claims, ONE builder built repeatedly}}, each of N = {n} builds under one key with identical footer and assertion. \
+    rule: format!("histories = 4 local versions x {{GenericBuilder, PasetoBuilder}} x {{identical claims with a fresh builder per build, varying claims, ONE builder built repeatedly}}, each of N = {n} builds under one key with identical footer and assertion; \
+           plus identical LARGE claims (70 000 bytes) and generated histories in which builds of the other local versions are interleaved on the same thread (repeating blocks of 1-23 versions). For v3/v4 (raw random nonce) no 8-byte window may occur in two nonces at any offset. \
            Invariant over the history: the nonce fields (first 32, v2 24, decoded payload bytes) are pairwise distinct, the tokens are pairwise distinct, every one of the 256/192 nonce bit positions is 1 in N/2 +- sqrt(30 N) builds \
            (Hoeffding: a uniform source violates this with probability < 2^-70 over all positions and histories) and every nonce byte position takes >= 128 distinct values. \
            An 'evaluation' is one history; builds_total / distinct_nonces_total count the builds. Non-trivial = N >= 1000; distinct by (version, builder, mode)."),
